@@ -29,6 +29,7 @@ ASSUMPTIONS = ["crash points are I/O-call and syscall boundaries plus torn write
 NET_MAGIC = {"mainnet": bytes.fromhex("f9beb4d9"), "testnet": bytes.fromhex("0b110907"), "regtest": bytes.fromhex("fabfb5da")}
 MAGIC = NET_MAGIC["mainnet"]
 NET = "mainnet"
+CONTAINER = "bytes"
 SCRATCH = "/dev/shm" if os.path.isdir("/dev/shm") else tempfile.gettempdir()
 
 
@@ -48,7 +49,8 @@ def gen_cases(tier, seed):
         yield "exhaustive", {"max": mx, "first": b0, "alpha": alpha, "depth": 3 if not q else (3 if i % 3 == 0 else 2)}
     for i in range(300 if q else 6000):
         yield "history", {"salt": rng.getrandbits(40), "max": rng.choice([64, 100, 256]), "start": ["empty", "empty", "prepopulated", "twelve_full"][i % 4],
-                          "fork": i % 5 == 0, "net": ["mainnet", "testnet", "regtest", "mainnet", "Regtest", "TESTNET", "mainnet"][i % 7]}
+                          "fork": i % 5 == 0, "net": ["mainnet", "testnet", "regtest", "mainnet", "Regtest", "TESTNET", "mainnet"][i % 7],
+                          "container": ["bytes", "bytes", "bytearray", "bytes", "memoryview"][i % 5]}
     # directory names that mean something to path / pattern machinery: ".dat" and "blk" inside, glob metacharacters ([..] * ?), spaces, a
     # leading dash, percent and brace characters, non-ASCII
     for dn in ("node.data/blocks", "blk.dat.d/blocks", "my.dat", "blkchain/x.dat.y", "blocks.dat/", "a blk b/.dat", "blocks[regtest]", "node[1]/blocks", "b[a-z]k/x", "st*r/blocks",
@@ -67,7 +69,7 @@ def gen_cases(tier, seed):
 
 def required(tier):
     return {"hist.batches": 3000, "hist.rollover.exact_fit": 200, "hist.rollover.one_byte_over": 200, "hist.rollover.new_file": 500,
-            "hist.start.twelve_full": 50, "net.regtest": 40, "net.testnet": 40, "hist.start.n_files": 20, "hist.start.path_with_dat_or_blk": 10, "hist.forked_batches": 100, "crash.points": 800, "crash.variant.torn": 150,
+            "hist.start.twelve_full": 50, "net.regtest": 40, "container.bytearray": 30, "container.memoryview": 30, "net.testnet": 40, "hist.start.n_files": 20, "hist.start.path_with_dat_or_blk": 10, "hist.forked_batches": 100, "crash.points": 800, "crash.variant.torn": 150,
             "crash.variant.writethrough": 150, "crash.variant.buffered": 150, "audit.opens": 3000, "exh.histories": 1500}
 
 
@@ -128,7 +130,10 @@ def _call(d, blocks, mx):
     p2p.MAX_BLOCKFILE_SIZE = mx
     _audit["on"] = True
     try:
-        p2p.write_blocks_to_disk([bytes(b) for b in blocks], d)
+        # the same block bytes in whatever bytes-like container / sequence type the caller has them (CONTAINER is set per case)
+        conv = {"bytes": bytes, "bytearray": bytearray, "memoryview": lambda b: memoryview(bytes(b))}[CONTAINER]
+        seq = [conv(b) for b in blocks]
+        p2p.write_blocks_to_disk(tuple(seq) if CONTAINER == "memoryview" else seq, d)
     finally:
         _audit["on"] = False
         p2p.MAX_BLOCKFILE_SIZE = saved
@@ -244,7 +249,9 @@ def _run_history(ctx, d, mx, batches, model, fork=False, label=""):
 
 
 def run_case(kind, params, ctx):
-    global MAGIC, NET
+    global MAGIC, NET, CONTAINER
+    CONTAINER = params.get("container", "bytes")
+    ctx.count(f"container.{CONTAINER}")
     _install_audit()
     mx = params["max"]
     NET = params.get("net", "mainnet")
